@@ -48,7 +48,11 @@ Matches(ev, want) ==
   /\ (ev.engine = "interp" => ev.count <= 3 * (IF ev.v2 THEN 384 ELSE 256) * ev.n)
 
 First == Ev.first
+\* the interpreter's decoded program: every CBRANCH jumps to the instruction after the last writer of its register
+TargetsOk(ev) == LET dec == DecodeProgram(ev.words)
+                 IN  ev.targets = [i \in 1..Len(dec) |-> IF dec[i].k = "CBRANCH" THEN dec[i].target ELSE -2]
 TOracleFirst == /\ l <= Len(TraceLog) /\ Ev.e = "run" /\ Ev.tag = "oracle" /\ First
+                /\ TargetsOk(Ev)
                 /\ LET want == Expected(Ev) IN Matches(Ev, want) /\ ref' = want
                 /\ l' = l + 1
 TDiffFirst == /\ l <= Len(TraceLog) /\ Ev.e = "run" /\ Ev.tag = "diff" /\ First
